@@ -1,1 +1,9 @@
-pub fn x(){}
+//! refvm — reference models written from docs/src/user_docs and docs/src/design, deliberately
+//! boring: Goldilocks arithmetic on u64/u128, an instruction-level interpreter of Miden assembly
+//! over the harness' own AST, and (in `mast`) the operation batching / MAST hashing reference.
+//! Nothing here depends on the miden crates.
+
+pub mod ast;
+pub mod field;
+pub mod interp;
+pub mod mast;
